@@ -60,6 +60,16 @@ def stepAggregate (fields : List String) : Option String :=
       let p ← decodeText path
       let tomls : List Toml := (ds.zipIdx).map fun (d, i) => { dir := dirParts d, ident := i }
       pure (",".intercalate ((findRelevantTomls tomls (dirParts p)).map fun t => toString t.ident))
+  | ["findlic", pairs] => do
+      -- `path>identifier` pairs in glob order; the table is the identifier function
+      let ps ← (if pairs == "~" then some [] else (pairs.splitOn ";").mapM fun t =>
+        match t.splitOn ">" with
+        | [a, b] => do pure (String.ofList (← decodeText a), String.ofList (← decodeText b))
+        | _ => none)
+      let ident := fun p => ((ps.find? fun q => q.1 == p).map (·.2)).getD p
+      pure (match findLicenses ident (ps.map (·.1)) with
+        | none => "duplicate"
+        | some d => showP (sortP d))
   | ["endmatch", text] => do
       pure (encodeBool (matchesEnd Generated.endAlternatives (← decodeText text)))
   | ["endshape"] => pure (toString Generated.endShape)
